@@ -6,7 +6,7 @@ tests), the demonstration, and meta.json. For every change a scratch worktree of
 created, the patch applied, and the property's check run with VERIF_REPO=<worktree>; exit 1 is
 expected. Results go to seeded/RESULTS.md and into each meta.json ("check_result").
 
-usage: seeded.py [--only id] [--tier quick|thorough] [--also Cxx,Cyy]
+usage: seeded.py [--only id|*suffix] [--tier quick|thorough] [--also Cxx,Cyy]
 """
 import argparse, json, os, shutil, subprocess, sys, time, hashlib
 VERIF = os.path.dirname(os.path.dirname(os.path.abspath(__file__)))
@@ -17,7 +17,7 @@ rows = []
 for d in sorted(os.listdir(root)):
     dd = os.path.join(root, d)
     if not os.path.isdir(dd) or not os.path.exists(os.path.join(dd, 'patch.diff')): continue
-    if a.only and a.only != d: continue
+    if a.only and a.only != d and not (a.only.startswith('*') and d.endswith(a.only[1:])): continue
     meta = json.load(open(os.path.join(dd, 'meta.json')))
     props = [meta['property']] + [p for p in a.also.split(',') if p] + meta.get('also_check', [])
     wt = '/tmp/verif-seeded-%s-%d' % (d, os.getpid())
